@@ -25,6 +25,12 @@ Engine/AndOrFacts.vos Engine/AndOrFacts.vok Engine/AndOrFacts.required_vos: Engi
 Engine/RecEngine.vo Engine/RecEngine.glob Engine/RecEngine.v.beautified Engine/RecEngine.required_vo: Engine/RecEngine.v Engine/AndOr.vo
 Engine/RecEngine.vio: Engine/RecEngine.v Engine/AndOr.vio
 Engine/RecEngine.vos Engine/RecEngine.vok Engine/RecEngine.required_vos: Engine/RecEngine.v Engine/AndOr.vos
+Engine/RecEval.vo Engine/RecEval.glob Engine/RecEval.v.beautified Engine/RecEval.required_vo: Engine/RecEval.v Engine/RecInv.vo
+Engine/RecEval.vio: Engine/RecEval.v Engine/RecInv.vio
+Engine/RecEval.vos Engine/RecEval.vok Engine/RecEval.required_vos: Engine/RecEval.v Engine/RecInv.vos
+Engine/RecInv.vo Engine/RecInv.glob Engine/RecInv.v.beautified Engine/RecInv.required_vo: Engine/RecInv.v Engine/RecEngine.vo Engine/AndOrFacts.vo
+Engine/RecInv.vio: Engine/RecInv.v Engine/RecEngine.vio Engine/AndOrFacts.vio
+Engine/RecInv.vos Engine/RecInv.vok Engine/RecInv.required_vos: Engine/RecInv.v Engine/RecEngine.vos Engine/AndOrFacts.vos
 Engine/RecWitness.vo Engine/RecWitness.glob Engine/RecWitness.v.beautified Engine/RecWitness.required_vo: Engine/RecWitness.v Engine/RecEngine.vo
 Engine/RecWitness.vio: Engine/RecWitness.v Engine/RecEngine.vio
 Engine/RecWitness.vos Engine/RecWitness.vok Engine/RecWitness.required_vos: Engine/RecWitness.v Engine/RecEngine.vos
@@ -40,9 +46,12 @@ Infer/Canon.vos Infer/Canon.vok Infer/Canon.required_vos: Infer/Canon.v Ir/Synta
 Infer/Closed.vo Infer/Closed.glob Infer/Closed.v.beautified Infer/Closed.required_vo: Infer/Closed.v Ir/Syntax.vo Ir/Fold.vo Infer/Table.vo Infer/Unify.vo Infer/Variance.vo
 Infer/Closed.vio: Infer/Closed.v Ir/Syntax.vio Ir/Fold.vio Infer/Table.vio Infer/Unify.vio Infer/Variance.vio
 Infer/Closed.vos Infer/Closed.vok Infer/Closed.required_vos: Infer/Closed.v Ir/Syntax.vos Ir/Fold.vos Infer/Table.vos Infer/Unify.vos Infer/Variance.vos
-Infer/Exec.vo Infer/Exec.glob Infer/Exec.v.beautified Infer/Exec.required_vo: Infer/Exec.v Ir/Syntax.vo Ir/Fold.vo Infer/Canon.vo Infer/UCanon.vo Infer/Answer.vo
-Infer/Exec.vio: Infer/Exec.v Ir/Syntax.vio Ir/Fold.vio Infer/Canon.vio Infer/UCanon.vio Infer/Answer.vio
-Infer/Exec.vos Infer/Exec.vok Infer/Exec.required_vos: Infer/Exec.v Ir/Syntax.vos Ir/Fold.vos Infer/Canon.vos Infer/UCanon.vos Infer/Answer.vos
+Infer/Exec.vo Infer/Exec.glob Infer/Exec.v.beautified Infer/Exec.required_vo: Infer/Exec.v Ir/Syntax.vo Ir/Fold.vo Infer/Canon.vo Infer/UCanon.vo Infer/Answer.vo Infer/Invert.vo
+Infer/Exec.vio: Infer/Exec.v Ir/Syntax.vio Ir/Fold.vio Infer/Canon.vio Infer/UCanon.vio Infer/Answer.vio Infer/Invert.vio
+Infer/Exec.vos Infer/Exec.vok Infer/Exec.required_vos: Infer/Exec.v Ir/Syntax.vos Ir/Fold.vos Infer/Canon.vos Infer/UCanon.vos Infer/Answer.vos Infer/Invert.vos
+Infer/Invert.vo Infer/Invert.glob Infer/Invert.v.beautified Infer/Invert.required_vo: Infer/Invert.v Ir/Syntax.vo Ir/Fold.vo Infer/Canon.vo Infer/UCanon.vo
+Infer/Invert.vio: Infer/Invert.v Ir/Syntax.vio Ir/Fold.vio Infer/Canon.vio Infer/UCanon.vio
+Infer/Invert.vos Infer/Invert.vok Infer/Invert.required_vos: Infer/Invert.v Ir/Syntax.vos Ir/Fold.vos Infer/Canon.vos Infer/UCanon.vos
 Infer/Script.vo Infer/Script.glob Infer/Script.v.beautified Infer/Script.required_vo: Infer/Script.v Ir/Syntax.vo Ir/Fold.vo Infer/Table.vo Infer/Unify.vo
 Infer/Script.vio: Infer/Script.v Ir/Syntax.vio Ir/Fold.vio Infer/Table.vio Infer/Unify.vio
 Infer/Script.vos Infer/Script.vok Infer/Script.required_vos: Infer/Script.v Ir/Syntax.vos Ir/Fold.vos Infer/Table.vos Infer/Unify.vos
@@ -67,9 +76,9 @@ Infer/Variance.vos Infer/Variance.vok Infer/Variance.required_vos: Infer/Varianc
 Ir/CouldMatch.vo Ir/CouldMatch.glob Ir/CouldMatch.v.beautified Ir/CouldMatch.required_vo: Ir/CouldMatch.v Ir/Syntax.vo Ir/Fold.vo
 Ir/CouldMatch.vio: Ir/CouldMatch.v Ir/Syntax.vio Ir/Fold.vio
 Ir/CouldMatch.vos Ir/CouldMatch.vok Ir/CouldMatch.required_vos: Ir/CouldMatch.v Ir/Syntax.vos Ir/Fold.vos
-Ir/Flags.vo Ir/Flags.glob Ir/Flags.v.beautified Ir/Flags.required_vo: Ir/Flags.v Ir/Syntax.vo
-Ir/Flags.vio: Ir/Flags.v Ir/Syntax.vio
-Ir/Flags.vos Ir/Flags.vok Ir/Flags.required_vos: Ir/Flags.v Ir/Syntax.vos
+Ir/Flags.vo Ir/Flags.glob Ir/Flags.v.beautified Ir/Flags.required_vo: Ir/Flags.v Ir/Syntax.vo Ir/Fold.vo
+Ir/Flags.vio: Ir/Flags.v Ir/Syntax.vio Ir/Fold.vio
+Ir/Flags.vos Ir/Flags.vok Ir/Flags.required_vos: Ir/Flags.v Ir/Syntax.vos Ir/Fold.vos
 Ir/Fold.vo Ir/Fold.glob Ir/Fold.v.beautified Ir/Fold.required_vo: Ir/Fold.v Ir/Syntax.vo
 Ir/Fold.vio: Ir/Fold.v Ir/Syntax.vio
 Ir/Fold.vos Ir/Fold.vok Ir/Fold.required_vos: Ir/Fold.v Ir/Syntax.vos
@@ -142,9 +151,9 @@ Props/C13.vos Props/C13.vok Props/C13.required_vos: Props/C13.v Logic/Perm.vos
 Props/C15.vo Props/C15.glob Props/C15.v.beautified Props/C15.required_vo: Props/C15.v Ir/Syntax.vo Infer/Table.vo Infer/Unify.vo Infer/Sym.vo
 Props/C15.vio: Props/C15.v Ir/Syntax.vio Infer/Table.vio Infer/Unify.vio Infer/Sym.vio
 Props/C15.vos Props/C15.vok Props/C15.required_vos: Props/C15.v Ir/Syntax.vos Infer/Table.vos Infer/Unify.vos Infer/Sym.vos
-Props/C16.vo Props/C16.glob Props/C16.v.beautified Props/C16.required_vo: Props/C16.v Ir/Syntax.vo Ir/Fold.vo Infer/Canon.vo Infer/UCanon.vo
-Props/C16.vio: Props/C16.v Ir/Syntax.vio Ir/Fold.vio Infer/Canon.vio Infer/UCanon.vio
-Props/C16.vos Props/C16.vok Props/C16.required_vos: Props/C16.v Ir/Syntax.vos Ir/Fold.vos Infer/Canon.vos Infer/UCanon.vos
+Props/C16.vo Props/C16.glob Props/C16.v.beautified Props/C16.required_vo: Props/C16.v Ir/Syntax.vo Ir/Fold.vo Infer/Canon.vo Infer/UCanon.vo Infer/Invert.vo
+Props/C16.vio: Props/C16.v Ir/Syntax.vio Ir/Fold.vio Infer/Canon.vio Infer/UCanon.vio Infer/Invert.vio
+Props/C16.vos Props/C16.vok Props/C16.required_vos: Props/C16.v Ir/Syntax.vos Ir/Fold.vos Infer/Canon.vos Infer/UCanon.vos Infer/Invert.vos
 Props/C17.vo Props/C17.glob Props/C17.v.beautified Props/C17.required_vo: Props/C17.v Ir/Syntax.vo Ir/Fold.vo Agg/Instance.vo Agg/AntiUnify.vo Agg/MayInv.vo Agg/Solution.vo
 Props/C17.vio: Props/C17.v Ir/Syntax.vio Ir/Fold.vio Agg/Instance.vio Agg/AntiUnify.vio Agg/MayInv.vio Agg/Solution.vio
 Props/C17.vos Props/C17.vok Props/C17.required_vos: Props/C17.v Ir/Syntax.vos Ir/Fold.vos Agg/Instance.vos Agg/AntiUnify.vos Agg/MayInv.vos Agg/Solution.vos
@@ -163,6 +172,9 @@ Props/C21.vos Props/C21.vok Props/C21.required_vos: Props/C21.v Rules/Wf.vos
 Props/C22.vo Props/C22.glob Props/C22.v.beautified Props/C22.required_vo: Props/C22.v Text/Syntax22.vo Text/Print.vo Text/Parse.vo Text/RoundTripAst.vo Text/RoundTripIr.vo Text/RoundTrip.vo
 Props/C22.vio: Props/C22.v Text/Syntax22.vio Text/Print.vio Text/Parse.vio Text/RoundTripAst.vio Text/RoundTripIr.vio Text/RoundTrip.vio
 Props/C22.vos Props/C22.vok Props/C22.required_vos: Props/C22.v Text/Syntax22.vos Text/Print.vos Text/Parse.vos Text/RoundTripAst.vos Text/RoundTripIr.vos Text/RoundTrip.vos
+Props/C23.vo Props/C23.glob Props/C23.v.beautified Props/C23.required_vo: Props/C23.v Logic/Restrict.vo
+Props/C23.vio: Props/C23.v Logic/Restrict.vio
+Props/C23.vos Props/C23.vok Props/C23.required_vos: Props/C23.v Logic/Restrict.vos
 Props/C24.vo Props/C24.glob Props/C24.v.beautified Props/C24.required_vo: Props/C24.v Text/LowerFail.vo Text/LowerFailFacts.vo
 Props/C24.vio: Props/C24.v Text/LowerFail.vio Text/LowerFailFacts.vio
 Props/C24.vos Props/C24.vok Props/C24.required_vos: Props/C24.v Text/LowerFail.vos Text/LowerFailFacts.vos
@@ -202,6 +214,9 @@ Rules/Types.vos Rules/Types.vok Rules/Types.required_vos: Rules/Types.v Logic/Pr
 Rules/Wf.vo Rules/Wf.glob Rules/Wf.v.beautified Rules/Wf.required_vo: Rules/Wf.v Rules/EnvElab.vo
 Rules/Wf.vio: Rules/Wf.v Rules/EnvElab.vio
 Rules/Wf.vos Rules/Wf.vok Rules/Wf.required_vos: Rules/Wf.v Rules/EnvElab.vos
+Text/Fuel.vo Text/Fuel.glob Text/Fuel.v.beautified Text/Fuel.required_vo: Text/Fuel.v Text/Syntax22.vo Text/TokEq.vo Text/Print.vo Text/Parse.vo Text/RoundTripAst.vo Text/RoundTripIr.vo Text/RoundTrip.vo
+Text/Fuel.vio: Text/Fuel.v Text/Syntax22.vio Text/TokEq.vio Text/Print.vio Text/Parse.vio Text/RoundTripAst.vio Text/RoundTripIr.vio Text/RoundTrip.vio
+Text/Fuel.vos Text/Fuel.vok Text/Fuel.required_vos: Text/Fuel.v Text/Syntax22.vos Text/TokEq.vos Text/Print.vos Text/Parse.vos Text/RoundTripAst.vos Text/RoundTripIr.vos Text/RoundTrip.vos
 Text/LowerFail.vo Text/LowerFail.glob Text/LowerFail.v.beautified Text/LowerFail.required_vo: Text/LowerFail.v 
 Text/LowerFail.vio: Text/LowerFail.v 
 Text/LowerFail.vos Text/LowerFail.vok Text/LowerFail.required_vos: Text/LowerFail.v 
